@@ -71,7 +71,7 @@ func (am *ACMEIssuer) distributedHTTPChallengeSolver(w http.ResponseWriter, r *h
 	if am == nil {
 		return false
 	}
-	host := hostOnly(r.Host)
+	host := challengeHost(r.Host)
 	chalInfo, distributed, err := am.config.getChallengeInfo(r.Context(), host)
 	if err != nil {
 		am.Logger.Warn("looking up info for HTTP challenge",
@@ -91,7 +91,7 @@ func (am *ACMEIssuer) distributedHTTPChallengeSolver(w http.ResponseWriter, r *h
 func solveHTTPChallenge(logger *zap.Logger, w http.ResponseWriter, r *http.Request, challenge acme.Challenge, distributed bool) bool {
 	challengeReqPath := challenge.HTTP01ResourcePath()
 	if r.URL.Path == challengeReqPath &&
-		strings.EqualFold(hostOnly(r.Host), challenge.Identifier.Value) && // mitigate DNS rebinding attacks
+		strings.EqualFold(challengeHost(r.Host), challenge.Identifier.Value) && // mitigate DNS rebinding attacks
 		r.Method == http.MethodGet {
 		w.Header().Add("Content-Type", "text/plain")
 		w.Write([]byte(challenge.KeyAuthorization))
@@ -104,6 +104,18 @@ func solveHTTPChallenge(logger *zap.Logger, w http.ResponseWriter, r *http.Reque
 		return true
 	}
 	return false
+}
+
+// challengeHost returns the host of a request's Host header in the form an ACME
+// identifier has: without the port and, for an IPv6 literal, without the square
+// brackets. (hostOnly leaves the brackets in place when there is no port, which
+// is how an ACME server validating an IPv6 identifier on port 80 sends it.)
+func challengeHost(hostport string) string {
+	host := hostOnly(hostport)
+	if strings.HasPrefix(host, "[") && strings.HasSuffix(host, "]") && strings.Contains(host, ":") {
+		host = host[1 : len(host)-1]
+	}
+	return host
 }
 
 // SolveHTTPChallenge solves the HTTP challenge. It should be used only on HTTP requests that are
